@@ -492,6 +492,65 @@ pub fn run_exh16(a: &Args) {
             out.ev(json!({"op":"decb","shape":s.to_json(),"prefix":jb(p),"outs":outs}));
         }
     }
+    // entire domain of the 16-bit integer encoders (values built from limbs), 256 values per event
+    for k in [IntK::U16, IntK::I16] {
+        let s = Shape::Int(k);
+        for hi in 0..=255u64 {
+            if hi % shards != shard {
+                continue;
+            }
+            let mut outs = vec![];
+            for lo in 0..=255u64 {
+                let v = Val::int(k, (lo | (hi << 8)) as u128);
+                let o = catch(|| {
+                    let b = postcard::to_allocvec(&SV(&s, &v))?;
+                    let (d, rem) = with_shape(&s, || postcard::take_from_bytes::<DynVal>(&b))?;
+                    Ok::<_, postcard::Error>((b.clone(), d.0, b.len() - rem.len()))
+                });
+                outs.push(match o {
+                    Ok(Ok((b, d, used))) => json!([jb(&b), d.to_json(), used]),
+                    Ok(Err(e)) => json!([errname(&e)]),
+                    Err(p) => json!([format!("panic:{p}")]),
+                });
+            }
+            out.ev(json!({"op":"intb","shape":s.to_json(),"hi":hi,"outs":outs}));
+        }
+    }
+    // the char domain in blocks of 256 code points (all blocks, or a sample)
+    let nblocks = 0x110000u32 / 256;
+    let char_all = a.num("charall", 0) == 1;
+    for blk in 0..nblocks {
+        if blk as u64 % shards != shard {
+            continue;
+        }
+        let interesting = blk < 9 || (0xd7..=0xe0).contains(&blk) || blk == 0xff || blk == 0x100 || blk == 0x1f6 || blk >= nblocks - 2;
+        if !char_all && !interesting && r.gen_range(0..40) != 0 {
+            continue;
+        }
+        let s = Shape::Char;
+        let mut outs = vec![];
+        for lo in 0..256u32 {
+            let cp = blk * 256 + lo;
+            match char::from_u32(cp) {
+                None => outs.push(json!([])), // not a scalar value (surrogate): no char to encode
+                Some(c) => {
+                    let v = Val::Char(c);
+                    let o = catch(|| {
+                        let b = postcard::to_allocvec(&SV(&s, &v))?;
+                        let (d, rem) = with_shape(&s, || postcard::take_from_bytes::<DynVal>(&b))?;
+                        let back = match d.0 { Val::Char(c2) => c2 as u32 as i64, _ => -1 };
+                        Ok::<_, postcard::Error>((b.clone(), back, b.len() - rem.len()))
+                    });
+                    outs.push(match o {
+                        Ok(Ok((b, back, used))) => json!([jb(&b), back, used]),
+                        Ok(Err(e)) => json!([errname(&e)]),
+                        Err(p) => json!([format!("panic:{p}")]),
+                    });
+                }
+            }
+        }
+        out.ev(json!({"op":"charb","blk":blk,"outs":outs}));
+    }
     out.flush();
     eprintln!("exh16: {} batch events", out.n);
 }
